@@ -160,16 +160,17 @@ def judge(fn, make):
 
 
 def families(alpha, tier, what):
+    """quick: single-fragment pumps with reduced prefix/suffix menus.  thorough: single-fragment pumps with the full menus (every fragment
+    as prefix and as suffix) and two-fragment pumps with the reduced menus (the full product would be 8.5 M families x 47 drivers)."""
     pre = [''] + alpha
     suf = [''] + alpha + ['%']
-    if tier == 'quick' and what == 'pattern':
-        pre = [''] + [x for x in alpha if len(x) > 2 or x in ('a', '"', "'", ' ', '\\', '/*', '#', '[', ':a')]
-        suf = ['', 'a', '"', "'", ')', ']', ' ', '|', '%', ',']
-    if tier == 'quick' or what == 'value':
-        pumps = list(alpha)
-    else:
-        pumps = list(alpha) + [a + b for a in alpha for b in alpha]
-    return pre, pumps, suf
+    if what == 'pattern':
+        rpre = [''] + [x for x in alpha if len(x) > 2 or x in ('a', '"', "'", ' ', '\\', '/*', '#', '[', ':a')]
+        rsuf = ['', 'a', '"', "'", ')', ']', ' ', '|', '%', ',']
+        if tier == 'quick':
+            return rpre, list(alpha), rsuf, None
+        return pre, list(alpha) + [a + b for a in alpha for b in alpha], suf, (set(alpha), rpre, rsuf)
+    return pre, list(alpha), suf, None
 
 
 CHAIN_N = (6, 12, 18, 24, 30)
@@ -235,7 +236,7 @@ def run_custom_chains(sv, res):
 
 def shards(tier, seed):
     out = [('custom-chain', tier, 0, 0)]
-    _, pumps, _ = families(F, tier, 'pattern')
+    _, pumps, _, _ = families(F, tier, 'pattern')
     per = 1 if tier == 'quick' else 8
     for i in range(0, len(pumps), per):
         out.append(('pattern', tier, i, min(i + per, len(pumps))))
@@ -271,7 +272,7 @@ def run_shard(desc):
     if what == 'pattern':
         inv = inventory(sv)
         ds = drivers(sv, inv)
-        pre, pumps, suf = families(F, tier, what)
+        pre, pumps, suf, reduced = families(F, tier, what)
         if lo == 0:
             res.count('regexes_in_inventory', len(inv))
             res.extra['inventory'] = sorted(inv)
@@ -295,13 +296,14 @@ def run_shard(desc):
             el['class'] = s
             cls.match(el)
         ds.append(('match(.g) on a class string', mc))
-        pre, pumps, suf = families(FV, tier, what)
+        pre, pumps, suf, reduced = families(FV, tier, what)
         if lo == 0:
             res.count('attribute_patterns_in_inventory', len(pats))
     flagged = {}
     for pump in pumps[lo:hi]:
-        for a in pre:
-            for z in suf:
+        pre_, suf_ = (pre, suf) if reduced is None or pump in reduced[0] else (reduced[1], reduced[2])
+        for a in pre_:
+            for z in suf_:
                 make = lambda n, a=a, pump=pump, z=z: a + pump * n + z
                 for name, fn in ds:
                     if flagged.get(name, 0) >= 1 or res.failure_count >= 3:
